@@ -276,7 +276,7 @@ func registerRound2() {
 	// ---------------------------------------------------------------- C03: a request with message ID 0 is a request
 	for _, op := range []string{"bind", "search", "modify", "delete", "whoami", "unknownext"} {
 		regSpec(&Spec{
-			Name: "message-id-0-" + op, Props: []string{"C03", "C06"},
+			Name: "message-id-0-" + op, Props: []string{"C03", "C06", "C11"},
 			Conns: []ConnSpec{{Ops: []string{"bind", op + "@0", "search"}, Segs: []int{1, 1, 1}, Expect: 3}},
 			Quick: 2, Thor: 3,
 		})
